@@ -186,24 +186,30 @@ class RV:
                   syn_local={e: self.syn_local[e] for e in E} if self.syn_local else None)
 
     def loc(self, at):
+        """at: float in [0, 1], list of such floats, or "all" (every compartment of the branches in view)."""
         r = self.ref
         comps = []
         branches = []
         for n in self.N:
             if r.branch[n] not in branches:
                 branches.append(r.branch[n])
+        ats = None if at == "all" else (list(at) if isinstance(at, (list, tuple)) else [at])
         for b in branches:
             k = r.ncomp_per_branch[b]
             start = sum(r.ncomp_per_branch[:b])
-            if not (0.0 <= at <= 1.0):
-                raise Unspec("loc outside [0, 1]")
-            # the compartment containing relative position `at`; at an interior compartment boundary the
-            # denotation is ambiguous (two conventions) and nothing is asserted
-            idx = min(int(math.floor(at * k)), k - 1)
-            frac = at * k
-            if 0 < at < 1 and abs(frac - round(frac)) < 1e-6:
-                raise Unspec("loc at a compartment boundary")
-            comps.append(idx + start)
+            if ats is None:
+                comps += list(range(start, start + k))
+                continue
+            for a in ats:
+                if not (0.0 <= a <= 1.0):
+                    raise Unspec("loc outside [0, 1]")
+                # the compartment containing relative position `a`; at an interior compartment boundary the
+                # denotation is ambiguous (two conventions) and nothing is asserted
+                idx = min(int(math.floor(a * k)), k - 1)
+                frac = a * k
+                if 0 < a < 1 and abs(frac - round(frac)) < 1e-6:
+                    raise Unspec("loc at a compartment boundary")
+                comps.append(idx + start)
         v = RV(r, self.N, self.E, "global", self.nctrl, self.ectrl, "view").at("comp", comps)
         return RV(r, v.N, v.E, self.scope, v.nctrl, v.ectrl, "loc")
 
@@ -421,10 +427,11 @@ class RefModule:
         if rv.kind == "module":
             self.recordings = []
             return
-        if self.edges and any(st in self.edge_states() for _, st in self.recordings):
-            raise Unspec("view.delete_recordings with synaptic recordings present")
-        s = set(rv.N)
-        self.recordings = [r for r in self.recordings if r[0] not in s]
+        # recordings of compartment states are in view iff their compartment is, recordings of synaptic states and
+        # currents iff their synapse is
+        cs = set(self.comp_states())
+        sn, se = set(rv.N), set(rv.E)
+        self.recordings = [r for r in self.recordings if not ((r[1] in cs and r[0] in sn) or (r[1] not in cs and r[0] in se))]
 
     def external(self, rv, key, rows_of_samples):
         """stimulate (key='i') / clamp: rows_of_samples is a list of 1..k sample lists."""
